@@ -99,7 +99,14 @@ func (g *G) genAolMsg() (sdk.Msg, string) {
 		val := pick(g, "rval", [][]byte{nil, []byte("v"), []byte(strings.Repeat("v", 5000)), {0x00}})
 		fp := ""
 		if g.chance("fee-payer", g.bias("fee-payer", 30)) {
-			fp = g.bech(g.acct("payer"))
+			switch g.weighted("payer-role", "any", 5, "owner", 3, "writer", 2) {
+			case "owner":
+				fp = g.bech(owner)
+			case "writer":
+				fp = g.bech(wr)
+			default:
+				fp = g.bech(g.acct("payer"))
+			}
 		}
 		return &aoltypes.MsgAddRecordRequest{TopicName: topic, Key: key, Value: val, WriterAddress: g.addrString("writer-spelling", wr),
 			OwnerAddress: ownerStr, FeePayerAddress: fp}, "add-record"
